@@ -255,6 +255,14 @@ def do_compute(state, spec, workers):
         return op, ("fresh_process: under mode %s %s -> %r, a process that only"
                     " ever used %s answers %r" % (cm, json.dumps(op), got, cm,
                                                   want))
+    if op["op"] == "dur_cmp" and isinstance(got, list):
+        # a nominal year counts as the mode's common-year length
+        want_days = op["a"]["years"] * R.ylen(cm, 2001)
+        if got[4] != [want_days, 0] or got[5] != want_days * 86400:
+            return op, ("definition: mode %s Duration(years=%d) is roughly %r "
+                        "days / %r s, the mode's year has %d days" % (
+                            cm, op["a"]["years"], got[4], got[5],
+                            R.ylen(cm, 2001)))
     if op["op"] == "fn" and op["name"] in LEN_REF:
         ref = LEN_REF[op["name"]](cm, op["args"])
         if got != ref:
